@@ -432,7 +432,7 @@ func (e *C17) system(ctx *core.Ctx) {
 	for i := range seeds {
 		seeds[i] = r.Int63()
 	}
-	const ops = 60
+	const ops = 100
 	var wg sync.WaitGroup
 	var pmu sync.Mutex
 	var panics []string
@@ -478,11 +478,22 @@ func (e *C17) system(ctx *core.Ctx) {
 		}
 		return out
 	}), seeds[3])
+	// a second worker per main controller (MaxConcurrentReconciles > 1 / different objects in flight)
+	run(rec("eds", func() []string { return []string{"foo"} }), seeds[7])
+	run(rec("ers", func() []string {
+		var out []string
+		for _, rs := range kit.RSs(w.S) {
+			out = append(out, rs.Name)
+		}
+		sort.Strings(out)
+		return out
+	}), seeds[7]+1)
 	run(func(rr *rand.Rand, i int) { w.KubeletStep() }, seeds[4])
 	run(func(rr *rand.Rand, i int) { simapi.Advance(time.Duration(1+rr.Intn(3)) * time.Second) }, seeds[5])
 	run(func(rr *rand.Rand, i int) {
 		switch rr.Intn(6) {
-		case 0:
+		case 0, 2:
+			// frequent template edits: replica sets are created and garbage-collected while others sync
 			w.S.Mutate(simapi.KindEDS, "ns1", "foo", func(o client.Object) {
 				o.(*v1.ExtendedDaemonSet).Spec.Template = kit.Tpl([]string{"A", "B", "C"}[rr.Intn(3)])
 			})
